@@ -382,7 +382,7 @@ func run(c *mon.Ctx) {
 		}
 		c.Class(fmt.Sprintf("pmt-query/n=%d/removed=%d", n, len(gone)))
 	})
-	c.Stream("own-tags", c.N(20000, 30000000), func(i int, r *gen.Rand) { own(c, r) })
+	c.Stream("own-tags", c.N(20000, 100000000), func(i int, r *gen.Rand) { own(c, r) })
 }
 
 func min(a, b int) int {
